@@ -97,6 +97,40 @@ pub fn eval(line: &str) -> String {
                     drop_deep(v);
                 }
             }
+            // sources whose characters declare a length no encoding has (nothing at all; 2^32): position
+            // arithmetic may neither fail nor change the outcome
+            for len in [0usize, 1 << 32] {
+                let r = Value::parse_infallible_with(s.chars().map(|c| decoded_char::DecodedChar::new(c, len)), opts(o));
+                if class(&r) != c2 {
+                    c2 = "DECLARED-LENGTH-CHANGES-OUTCOME";
+                }
+                if let Ok((v, _)) = r {
+                    drop_deep(v);
+                }
+                let r = Value::parse_with(s.chars().map(|c| Ok::<_, ()>(decoded_char::DecodedChar::new(c, len))), opts(o));
+                if class(&r) != c2 {
+                    c2 = "DECLARED-LENGTH-CHANGES-OUTCOME";
+                }
+                if let Ok((v, _)) = r {
+                    drop_deep(v);
+                }
+            }
+            // the string parser is generic in the inline capacity of its buffer: every instantiation (none,
+            // 1, 3, 32, 256 bytes inline) decodes what the crate's own 16-byte one decodes
+            if s.starts_with('"') {
+                use smallstr::SmallString;
+                let base = json_syntax::String::parse_str_with(&s, opts(o)).map(|(x, _)| x.as_str().to_string()).map_err(|_| ());
+                let all = [
+                    SmallString::<[u8; 0]>::parse_str_with(&s, opts(o)).map(|(x, _)| x.as_str().to_string()).map_err(|_| ()),
+                    SmallString::<[u8; 1]>::parse_str_with(&s, opts(o)).map(|(x, _)| x.as_str().to_string()).map_err(|_| ()),
+                    SmallString::<[u8; 3]>::parse_str_with(&s, opts(o)).map(|(x, _)| x.as_str().to_string()).map_err(|_| ()),
+                    SmallString::<[u8; 32]>::parse_str_with(&s, opts(o)).map(|(x, _)| x.as_str().to_string()).map_err(|_| ()),
+                    SmallString::<[u8; 256]>::parse_str_with(&s, opts(o)).map(|(x, _)| x.as_str().to_string()).map_err(|_| ()),
+                ];
+                if all.iter().any(|x| *x != base) {
+                    c2 = "STRING-INSTANTIATION-CHANGES-OUTCOME";
+                }
+            }
             let pulls = if calls.get() <= n + 4 && !after.get() { "ok".to_string() } else { format!("BAD({}/{})", calls.get(), n) };
             // the same text cut in the middle by a stream error: never pulled past the error
             let calls3 = Rc::new(Cell::new(0));
